@@ -1403,7 +1403,14 @@ def rand_mode_prog2(rng, st=None, depth=0, in_deco=False):
             st["n"] += 1
             name = f"fn{st['n']}"
             body, mr = rand_mode_prog2(rng, st, depth + 1, True)
-            acts.append({"mkdeco": name, "mode": rng.choice(modes), "body": body + ([] if mr else ["get"])})
+            deco = {"mkdeco": name, "mode": rng.choice(modes), "body": body + ([] if mr else ["get"])}
+            if not mr and rng.random() < 0.5:
+                # the decorated function re-enters itself (recursion) `rec` times; optionally the default is
+                # changed between the levels
+                deco["rec"] = rng.choice([1, 1, 2])
+                if rng.random() < 0.5:
+                    deco["recset"] = rng.choice(["auto", "fused", "blockwise"])
+            acts.append(deco)
             st["decos"].append((name, mr))
         elif r < 0.75 and st["made"] and not in_deco and depth < 3:
             name = st["made"].pop(rng.randrange(len(st["made"])))
@@ -1444,12 +1451,22 @@ def translate_mode_prog(prog, env=None):
         elif "make" in a:
             env["cms"][a["make"]] = a["mode"]
         elif "mkdeco" in a:
-            env["decos"][a["mkdeco"]] = (a["mode"], translate_mode_prog(a["body"], env))
+            env["decos"][a["mkdeco"]] = (a["mode"], translate_mode_prog(a["body"], env), a.get("rec", 0),
+                                         a.get("recset"))
         elif "enter" in a:
             out.append({"with": env["cms"][a["enter"]], "body": translate_mode_prog(a["body"], env)})
         elif "call" in a:
-            m, body = env["decos"][a["call"]]
-            out.append({"with": m, "body": body})
+            m, body, rec, recset = env["decos"][a["call"]]
+
+            def nest(d):
+                inner = list(body)
+                if d > 0:
+                    if recset is not None:
+                        inner.append({"set": recset})
+                    inner.append(nest(d - 1))
+                return {"with": m, "body": inner}
+
+            out.append(nest(rec))
         elif "with" in a:
             out.append({"with": a["with"], "body": translate_mode_prog(a["body"], env)})
         elif "try" in a:
@@ -1498,13 +1515,22 @@ def run_mode_prog(init, prog):
             body = act["body"]
 
             @sr.default_tensordot_mode(act["mode"])
-            def fn(_body=body, _mode=act["mode"]):
+            def fn(_depth=act.get("rec", 0), _body=body, _mode=act["mode"], _recset=act.get("recset")):
                 inside = sr.get_default_tensordot_mode()
                 if inside != _mode:
                     oracle.append(f"inside a function decorated with default_tensordot_mode({_mode!r}) "
                                   f"the mode is {inside!r}")
                 for a in _body:
                     ex(a)
+                if _depth > 0:
+                    if _recset is not None:
+                        ex({"set": _recset})
+                    b2 = sr.get_default_tensordot_mode()
+                    fn(_depth - 1)  # re-entry of the same decorated function while it is active
+                    a2 = sr.get_default_tensordot_mode()
+                    if a2 != b2:
+                        oracle.append(f"re-entrant decorated call: mode {b2!r} at the inner entry, {a2!r} after "
+                                      f"the inner exit")
 
             decos[act["mkdeco"]] = fn
         elif "enter" in act or "call" in act:
